@@ -43,6 +43,8 @@ pub static SCENARIOS: &[ScenarioDef] = &[
         "a reader holds a cascade child loaded through a second link that is removed while the parent's cascade runs"),
     scen!("rc/stalled-dropper", stalled_dropper,
         "an Rc drop stalls between reading the epoch and publishing its decrement while a link to the same child is removed and the parent's cascade runs"),
+    scen!("rc/reader-flushes", reader_flushes,
+        "a reader flushes (or drops 64 Rcs) twice inside the critical section in which it uses a Snapshot, while the object is unlinked and three other threads run one round each"),
     scen!("rc/failed-cas-current", failed_cas_current,
         "the `current` Snapshot of a failed compare_exchange is used while the object is unlinked and reclaimed"),
     scen!("rc/snapshot-then-drop", snapshot_then_drop,
@@ -511,6 +513,59 @@ fn stalled_dropper(p: &Params) -> Program {
     }
 }
 
+fn reader_flushes(p: &Params) -> Program {
+    // mode 0: Guard::flush(); 1: 64 strong decrements (the periodic flush of the counting layer)
+    let mode = p.get("mode", 0);
+    let age = p.get("age", 0) as usize;
+    let one_round = || rounds_thread(1);
+    Program {
+        setup: Some(body(move |c, w| {
+            let g = c.pin();
+            let x = c.new_node(1);
+            c.store(&w.roots[0], x, &g);
+            c.unpin(g);
+            if mode == 1 {
+                w.rc[3].put(c.new_node(2));
+            }
+            c.rounds(age);
+        })),
+        threads: vec![
+            body(move |c, w| {
+                let g = c.pin();
+                let s = c.load(&w.roots[0], &g);
+                for _ in 0..2 {
+                    c.sderef(s);
+                    if mode == 0 {
+                        c.flush(&g);
+                    } else {
+                        // the counting layer flushes on every `manual_interval`-th decrement; the
+                        // interval is lowered to 2 so that two decrements stand for the usual 64
+                        let y = w.rc[3].get();
+                        for _ in 0..2 {
+                            let cl = c.clone_rc(y);
+                            c.drop_rc(cl);
+                        }
+                    }
+                }
+                c.sderef(s);
+                c.sderef(s);
+                c.unpin(g);
+            }),
+            body(|c, w| {
+                let g = c.pin();
+                c.store(&w.roots[0], Rc::null(), &g);
+                c.unpin(g);
+                c.round();
+            }),
+            one_round(),
+            one_round(),
+            one_round(),
+        ],
+        manual_interval: if mode == 1 { 2 } else { 64 },
+        ..base(p)
+    }
+}
+
 fn failed_cas_current(p: &Params) -> Program {
     Program {
         setup: Some(body(|c, w| {
@@ -755,11 +810,13 @@ fn weak_holder(p: &Params) -> Program {
             body(|c, w| {
                 let wk = w.weak[0].take();
                 if let Some(r) = c.upgrade(&wk) {
+                    c.deref(&r);
                     c.drop_rc(r);
                 }
                 let w2 = c.wclone(&wk);
                 c.wdrop(wk);
                 if let Some(r) = c.upgrade(&w2) {
+                    c.deref(&r);
                     c.drop_rc(r);
                 }
                 w.weak[1].put(w2);
@@ -790,6 +847,8 @@ fn weak_through_zero(p: &Params) -> Program {
     // phase, possibly while the reader is inside its critical section)
     let destructed = p.get("destructed", 1);
     let pre = p.get("pre", 2) as usize;
+    // dropin: the re-created Weak is dropped again inside the same critical section
+    let dropin = p.get("dropin", 0) != 0;
     Program {
         setup: Some(body(move |c, w| {
             let x = c.new_node(1);
@@ -810,16 +869,21 @@ fn weak_through_zero(p: &Params) -> Program {
             }
         })),
         threads: vec![
-            body(|c, w| {
+            body(move |c, w| {
                 let g = c.pin();
                 let ws = c.wload(&w.wroots[0], &g);
                 if !ws.s.is_null() {
                     let w2 = c.ws_counted(ws);
-                    c.unpin(g);
-                    if let Some(r) = c.upgrade(&w2) {
-                        c.drop_rc(r);
+                    if dropin {
+                        c.wdrop(w2);
+                        c.unpin(g);
+                    } else {
+                        c.unpin(g);
+                        if let Some(r) = c.upgrade(&w2) {
+                            c.drop_rc(r);
+                        }
+                        w.weak[1].put(w2);
                     }
-                    w.weak[1].put(w2);
                 } else {
                     c.unpin(g);
                 }
